@@ -347,10 +347,13 @@ def rand_val(rnd, mag):
 
 def phonon_round_trip(s, qi, rnd, tmp):
     from cij.io.traditional import models
-    n = 40 if s.tier == "quick" else 1500
+    # the counts of the property's quantifier (1-12 volumes, 1-10 q-points, 3-60 modes) are a finite space: all 2400 triples are enumerated on every run (values random)
+    counts = [(nv, nq, nat) for nv in range(1, 13) for nq in range(1, 11) for nat in range(1, 21)]
+    if s.tier == "thorough":
+        counts = counts * 3
+    n = len(counts)
     fails, evals, distinct = [], 0, 0
-    for t in range(n):
-        nv, nq, nat = rnd.randint(1, 12), rnd.randint(1, 10), rnd.randint(1, 20)
+    for t, (nv, nq, nat) in enumerate(counts):
         npm = 3 * nat
         weights = [models.QPointWeight((rand_val(rnd, 1.0), rand_val(rnd, 1.0), rand_val(rnd, 1.0)), abs(rand_val(rnd, 100.0)) + 0.001) for _ in range(nq)]
         vols = []
@@ -397,7 +400,9 @@ def phonon_round_trip(s, qi, rnd, tmp):
         if msg:
             fails.append({"witness_id": "phonon:%d" % t, "input": {"nv": nv, "nq": nq, "np": npm, "comment": comment}, "observed": msg, "expected": "same data to the written precision"})
             break
-    s.bounded_standin("C17.phonon_write_read", "%d random data sets (1-12 volumes, 1-10 q-points, 3-60 modes, values of either sign up to 1e5 incl. edge magnitudes), seed %d" % (n, s.seed),
+    s.notes["phonon_counts_exhaustive"] = True
+    s.bounded_standin("C17.phonon_write_read", "%d data sets: %s of the count space 1-12 volumes x 1-10 q-points x 3-60 modes; random values of either sign up to 1e5 incl. edge "
+                      "magnitudes, seed %d" % (n, "EVERY triple", s.seed),
                       evals, distinct, fails, ["qha_input.write_energy", "qha_input.read_energy", "qha_input._read_volume_data", "qha_input._read_weights"])
 
 
